@@ -249,7 +249,7 @@ func (obj SparseConstFloat32Vector) ITERATOR() *SparseConstFloat32VectorIterator
   return &r
 }
 func (obj SparseConstFloat32Vector) ITERATOR_FROM(i int) *SparseConstFloat32VectorIterator {
-  k := 0
+  k := len(obj.indices)
   for j, idx := range obj.indices {
     if idx >= i {
       k = j
